@@ -483,9 +483,34 @@ func (c *Ctx) Script(asserts []string, getValues []string) string {
 		ids = append(ids, id)
 	}
 	sort.Ints(ids)
-	for _, id := range ids {
-		b.WriteString(c.reg.decls[id].text)
+	// dependency order (a declaration may have been registered before something it mentions)
+	emitted := map[int]bool{}
+	var emit func(id int)
+	emit = func(id int) {
+		if emitted[id] {
+			return
+		}
+		emitted[id] = true
+		d := c.reg.decls[id]
+		if !d.axiom {
+			for _, t := range tokens(d.text) {
+				if o, ok := c.reg.bySym[t]; ok && o.id != id && needDecl[o.id] && !o.axiom {
+					emit(o.id)
+				}
+			}
+		}
+		b.WriteString(d.text)
 		b.WriteString("\n")
+	}
+	for _, id := range ids {
+		if !c.reg.decls[id].axiom {
+			emit(id)
+		}
+	}
+	for _, id := range ids {
+		if c.reg.decls[id].axiom {
+			emit(id)
+		}
 	}
 	for _, d := range c.defs {
 		if !needDef[d] {
